@@ -29,7 +29,7 @@ Qed.
 
 Definition pidx (l : list N) (i : N) : N := nth (N.to_nat i) l 0.
 
-Record inv (acq : bool) (r : ring) : Prop := {
+Record inv (acq cs : bool) (r : ring) : Prop := {
   i_cap : 0 < r_cap r /\ length (r_buf r) = N.to_nat (r_cap r);
   i_bound : r_tail r <= r_head r /\ r_head r - r_tail r <= r_cap r;
   i_lens : lenN (r_pushed r) = r_head r /\ lenN (r_popped r) = r_tail r;
@@ -46,13 +46,13 @@ Record inv (acq : bool) (r : ring) : Prop := {
   i_cons : match r_c r with
            | CIdle => True
            | CReading t0 n got =>
-             t0 = r_tail r /\ t0 + lenN got + N.of_nat n <= r_head r /\ t0 + lenN got + N.of_nat n <= r_cknows r /\
+             t0 = r_tail r /\ t0 + lenN got + N.of_nat n <= r_head r /\ (cs = true -> t0 + lenN got + N.of_nat n <= r_cknows r) /\
              (forall j, j < lenN got -> pidx got j = pidx (r_pushed r) (t0 + j))
            end;
-  i_race : acq = true -> r_raced r = false
+  i_race : acq = true -> cs = true -> r_raced r = false
 }.
 
-Lemma init_inv acq cap : 0 < cap -> inv acq (ring_init cap).
+Lemma init_inv acq cs cap : 0 < cap -> inv acq cs (ring_init cap).
 Proof.
   intros H. constructor; cbn; auto; try lia; try (intros i Hi; lia).
   split; [exact H|apply repeat_length].
@@ -94,7 +94,7 @@ Proof.
   cbn [Nat.add firstn skipn app]. now rewrite IH.
 Qed.
 
-Theorem step_inv acq r s : inv acq r -> inv acq (fst (ring_step acq r s)).
+Theorem step_inv acq cs r s : inv acq cs r -> inv acq cs (fst (ring_step acq cs r s)).
 Proof.
   intros [[Hc Hl] [Hb1 Hb2] [Hl1 Hl2] Hlive Hfifo [Hk1 Hk2] Hp Hcn Hrace].
   destruct r as [cap head tail buf p c pk ck raced pushed popped]. cbn [r_cap r_head r_tail r_buf r_p r_c r_pknows r_cknows r_raced r_pushed r_popped] in *.
@@ -128,7 +128,7 @@ Proof.
            ++ rewrite pidx_app_l by lia. apply Hdone. lia.
            ++ pose proof (slot_distinct cap (head + j) i Hc ltac:(lia) ltac:(lia)). lia.
       * intros Ha. specialize (Hacq Ha). rewrite lenN_cons in Hacq. lia.
-    + intros Ha. rewrite (Hrace Ha). cbn [orb]. specialize (Hacq Ha). rewrite lenN_cons in Hacq.
+    + intros Ha Hcs. rewrite (Hrace Ha Hcs). cbn [orb]. specialize (Hacq Ha). rewrite lenN_cons in Hacq.
       destruct (cap <=? i) eqn:E; [|reflexivity]. apply negb_false_iff. lia.
   - (* push publish *)
     destruct p as [|h0 [|x todo] done]; try (cbn [fst]; constructor; cbn; auto; fail).
@@ -148,30 +148,30 @@ Proof.
       intros j Hj. rewrite pidx_app_l by lia. now apply H4.
   - (* pop begin *)
     destruct c as [|t0 n got]; [|cbn [fst]; destruct p; constructor; cbn; auto].
-    assert (Hgoal : inv acq (mkRing cap head tail buf p (CReading tail (N.to_nat (N.min maxn (head - tail))) []) pk (N.max ck head) raced pushed popped)).
+    assert (Hgoal : inv acq cs (mkRing cap head tail buf p (CReading tail (N.to_nat (N.min maxn (head - tail))) []) pk (if cs then N.max ck head else ck) raced pushed popped)).
     { constructor; cbn [r_cap r_head r_tail r_buf r_p r_c r_pknows r_cknows r_raced r_pushed r_popped]; auto.
-      - lia.
-      - split; [reflexivity|]. change (lenN []) with 0. split; [lia|]. split; [lia|]. intros j Hj. lia. }
+      - destruct cs; lia.
+      - split; [reflexivity|]. change (lenN []) with 0. split; [lia|]. split; [intros ->; lia|]. intros j Hj. lia. }
     destruct p; exact Hgoal.
   - (* pop read *)
     destruct c as [|t0 [|n] got]; try (cbn [fst]; destruct p; constructor; cbn; auto; fail).
     destruct Hcn as (Ht & Hr1 & Hr2 & Hgot). subst t0.
-    assert (Hgoal : inv acq (mkRing cap head tail buf p
+    assert (Hgoal : inv acq cs (mkRing cap head tail buf p
                                (CReading tail n (got ++ [nth (N.to_nat ((tail + lenN got) mod cap)) buf 0])) pk ck
                                (raced || negb (tail + lenN got + 1 <=? ck)) pushed popped)).
     { constructor; cbn [r_cap r_head r_tail r_buf r_p r_c r_pknows r_cknows r_raced r_pushed r_popped]; auto.
-      - split; [reflexivity|]. rewrite lenN_snoc. split; [lia|]. split; [lia|].
+      - split; [reflexivity|]. rewrite lenN_snoc. split; [lia|]. split; [intros Hcs; specialize (Hr2 Hcs); lia|].
         intros j Hj. destruct (N.eq_dec j (lenN got)) as [->|Hne].
         + unfold pidx at 1. rewrite app_nth2 by (unfold lenN; lia).
           replace (N.to_nat (lenN got) - length got)%nat with 0%nat by (unfold lenN; lia). cbn [nth].
           specialize (Hlive (tail + lenN got)). unfold slot in Hlive. cbn [r_cap] in Hlive. apply Hlive. lia.
         + rewrite pidx_app_l by lia. apply Hgot. lia.
-      - intros Ha. rewrite (Hrace Ha). cbn [orb]. apply negb_false_iff. lia. }
+      - intros Ha Hcs. rewrite (Hrace Ha Hcs). cbn [orb]. specialize (Hr2 Hcs). apply negb_false_iff. lia. }
     destruct p; exact Hgoal.
   - (* pop publish *)
     destruct c as [|t0 [|n] got]; try (cbn [fst]; destruct p; constructor; cbn; auto; fail).
     destruct Hcn as (Ht & Hr1 & Hr2 & Hgot). subst t0. change (N.of_nat 0) with 0 in *.
-    assert (Hgoal : inv acq (mkRing cap head (tail + lenN got) buf p CIdle pk ck raced pushed (popped ++ got))).
+    assert (Hgoal : inv acq cs (mkRing cap head (tail + lenN got) buf p CIdle pk ck raced pushed (popped ++ got))).
     { constructor; cbn [r_cap r_head r_tail r_buf r_p r_c r_pknows r_cknows r_raced r_pushed r_popped]; auto.
       - lia.
       - rewrite lenN_app. lia.
@@ -183,22 +183,22 @@ Proof.
     destruct p; exact Hgoal.
 Qed.
 
-Theorem run_inv acq : forall l r, inv acq r -> inv acq (fst (ring_run acq r l)).
+Theorem run_inv acq cs : forall l r, inv acq cs r -> inv acq cs (fst (ring_run acq cs r l)).
 Proof. induction l as [|s l IH]; intros r H; [exact H|]. cbn [ring_run fst]. apply IH. now apply step_inv. Qed.
 
 (* what a pop hands out is the next stretch of what was pushed *)
-Theorem pop_output_is_next acq r got : inv acq r -> snd (ring_step acq r SPopPublish) = OPopped got ->
-  r_popped (fst (ring_step acq r SPopPublish)) = r_popped r ++ got /\
+Theorem pop_output_is_next acq cs r got : inv acq cs r -> snd (ring_step acq cs r SPopPublish) = OPopped got ->
+  r_popped (fst (ring_step acq cs r SPopPublish)) = r_popped r ++ got /\
   r_popped r ++ got = firstn (N.to_nat (r_tail r) + length got) (r_pushed r).
 Proof.
-  intros Hi Ho. pose proof (step_inv acq r SPopPublish Hi) as Hi'.
+  intros Hi Ho. pose proof (step_inv acq cs r SPopPublish Hi) as Hi'.
   destruct r as [cap head tail buf p c pk ck raced pushed popped]. cbn [ring_step r_p r_c] in *.
   destruct c as [|t0 [|n] got0]; try (destruct p; cbn in Ho; discriminate).
   assert (got0 = got) by (destruct p; cbn in Ho; congruence). subst got0.
   assert (E : fst (match p with PIdle | _ => (mkRing cap head (t0 + lenN got) buf p CIdle pk ck raced pushed (popped ++ got), OPopped got) end)
               = mkRing cap head (t0 + lenN got) buf p CIdle pk ck raced pushed (popped ++ got)) by (destruct p; reflexivity).
   destruct Hi as [_ _ _ _ _ _ _ Hcn _]. cbn [r_c r_tail] in Hcn. destruct Hcn as (Ht & _). subst t0.
-  assert (Hf := i_fifo _ _ Hi'). 
+  assert (Hf := i_fifo _ _ _ Hi').
   destruct p; cbn [fst r_popped r_tail r_pushed] in *; (split; [reflexivity|]); rewrite Hf; f_equal; unfold lenN; lia.
 Qed.
 
@@ -206,7 +206,22 @@ Qed.
    read by the consumer is not ordered before the write *)
 Definition race_trace : list rstep :=
   [SPushBegin [7]; SPushWrite; SPushPublish; SPopBegin 1; SPopRead; SPopPublish; SPushBegin [8]; SPushWrite].
-Lemma relaxed_tail_races : r_raced (fst (ring_run false (ring_init 1) race_trace)) = true.
+Lemma relaxed_tail_races : r_raced (fst (ring_run false true (ring_init 1) race_trace)) = true.
 Proof. vm_compute. reflexivity. Qed.
-Lemma acquire_tail_same_trace : r_raced (fst (ring_run true (ring_init 1) race_trace)) = false.
+Lemma acquire_tail_same_trace : r_raced (fst (ring_run true true (ring_init 1) race_trace)) = false.
 Proof. vm_compute. reflexivity. Qed.
+
+(* a relaxed load of _head on the consumer side (or a relaxed publication of _head by the producer): the consumer
+   reads a slot whose write is not ordered before the read *)
+Definition race_trace_c : list rstep := [SPushBegin [7]; SPushWrite; SPushPublish; SPopBegin 1; SPopRead].
+Lemma relaxed_head_races : r_raced (fst (ring_run true false (ring_init 1) race_trace_c)) = true.
+Proof. vm_compute. reflexivity. Qed.
+
+(* FIFO / exactly once / bounded do not depend on the memory orders (they are functional); race freedom does *)
+Lemma fifo_any_orders ps cs cap l : 0 < cap ->
+  let r := fst (ring_run ps cs (ring_init cap) l) in
+  r_popped r = firstn (N.to_nat (r_tail r)) (r_pushed r) /\ r_head r - r_tail r <= r_cap r.
+Proof.
+  intros H r. assert (Hi : inv ps cs r) by (apply run_inv; now apply init_inv).
+  split; [apply (i_fifo _ _ _ Hi)|apply (i_bound _ _ _ Hi)].
+Qed.
